@@ -113,6 +113,40 @@ for nm, anchor, proto, post, slice_at, args in [
         backend='smt', no_flags=['--conversion-check'],
         says='offline (seek-and-read) reader: file position of %s = the documented layout' % nm.split('_')[1],
         trusted=['S-slice: the body is cut after the position computation; the stream I/O that follows is dropped']))
+
+# OfflineGraph (reader), WHOLE bodies with a stream stub: the value is read AT the documented position, whatever the cached
+# location was, and the cache `loc*` keeps tracking the real stream position (class invariant of the seek optimisation)
+OGS = SPEC + '''
+typedef int64_t gv_streamoff;
+struct Stream { gv_streamoff pos; gv_streamoff last_read_at; gv_streamoff gcount; };      /* an ifstream: its position; where the last read() started; gcount() */
+struct OfflineGraphS { uint64_t numNodes, numEdges, sizeEdgeData; bool v2; struct Stream fileEdgeDst, fileIndex, fileEdgeData; gv_streamoff locEdgeDst, locIndex, locEdgeData;
+                       uint64_t numSeeksEdgeDst, numSeeksIndex, numSeeksEdgeData, numBytesReadEdgeDst, numBytesReadIndex, numBytesReadEdgeData; } og;
+static inline void stream_seekg(struct Stream* s, gv_streamoff p) { s->pos = p; }
+/* read(n): succeeds completely (short reads / I/O errors are out of scope) */
+static inline void stream_read(struct Stream* s, gv_streamoff n) { s->last_read_at = s->pos; s->pos += n; s->gcount = n; }
+#define OG_SHAPE (SZ_OK(og.numNodes, og.numEdges, og.sizeEdgeData) && og.numSeeksEdgeDst < ((uint64_t)1 << 60) && og.numSeeksIndex < ((uint64_t)1 << 60) && og.numSeeksEdgeData < ((uint64_t)1 << 60) && og.numBytesReadEdgeDst < ((uint64_t)1 << 60) && og.numBytesReadIndex < ((uint64_t)1 << 60) && og.numBytesReadEdgeData < ((uint64_t)1 << 60))
+'''
+OG_MEM = ['numNodes', 'numEdges', 'sizeEdgeData', 'v2', 'fileEdgeDst', 'fileIndex', 'fileEdgeData', 'locEdgeDst', 'locIndex', 'locEdgeData', 'numSeeksEdgeDst', 'numSeeksIndex', 'numSeeksEdgeData', 'numBytesReadEdgeDst', 'numBytesReadIndex', 'numBytesReadEdgeData']
+OG_LOWER = [rx(r'assert\(sizeof\(T\) <= sizeEdgeData\);', '__CPROVER_assert(sizeof(T) <= sizeEdgeData, "code-assert: sizeof(T) <= sizeEdgeData");', 0), rx(r'std::lock_guard<decltype\(lock\)> lg\(lock\);', '', 1, 1), rx(r'std::streamoff', 'gv_streamoff', 1),
+            rx(r'try \{(.*?)\} catch \(const std::ifstream::failure& e\) \{.*?\n\s*\}', r'\1', 1, flags=re.S),
+            rx(r'(\w+)\.seekg\(pos, \w+\.beg\);', r'stream_seekg(&\1, pos);', 1), rx(r'(\w+)\.read\(reinterpret_cast<char\*>\(&retval\), sizeof\((\w+)\)\);', r'stream_read(&\1, (gv_streamoff)sizeof(\2));', 1),
+            rx(r'auto numBytesRead = (\w+)\.gcount\(\);', r'gv_streamoff numBytesRead = \1.gcount;', 1), rx(r'assert\(numBytesRead == sizeof\((\w+)\)\);', r'__CPROVER_assert(numBytesRead == (gv_streamoff)sizeof(\1), "code-assert: numBytesRead == sizeof(...)");', 1),
+            rx(r'(?<![\w.>])T retval;', 'T retval = 0;', 0), rx(r'uint(64|32)_t retval;', r'uint\1_t retval = 0;', 0), members(OG_MEM, self='og', arrow='.', minimum=4)]
+for nm, anchor, proto, strm, loc, posexpr, width, extra in [
+        ('OfflineGraph_outIndexs_stream', r'uint64_t outIndexs\(uint64_t node\)', 'uint64_t OfflineGraph_outIndexs_stream(uint64_t node)', 'fileEdgeDst', 'locEdgeDst', 'IDXOFF + 8 * node', '8', 'node <= ((uint64_t)1 << 40)'),
+        ('OfflineGraph_outEdges_stream', r'uint64_t outEdges\(uint64_t edge\)', 'uint64_t OfflineGraph_outEdges_stream(uint64_t edge)', 'fileIndex', 'locIndex', 'DSTOFF(og.numNodes) + W(og.v2 ? 2 : 1) * edge', 'W(og.v2 ? 2 : 1)', 'edge <= ((uint64_t)1 << 40)'),
+        ('OfflineGraph_edgeData_stream', r'T edgeData\(uint64_t edge\)', 'uint32_t OfflineGraph_edgeData_stream(uint64_t edge)', 'fileEdgeData', 'locEdgeData', 'DATAOFF(og.numNodes, og.numEdges, og.v2 ? 2 : 1) + og.sizeEdgeData * edge', '4', 'edge <= ((uint64_t)1 << 40) && og.sizeEdgeData >= 4 && (og.sizeEdgeData == 4 || og.sizeEdgeData == 8)')]:
+    UNITS.append(Unit(
+        name=nm, src=OFF_H, within=r'class OfflineGraph\b', anchor=anchor, proto=proto,
+        contract='''__CPROVER_requires(OG_SHAPE && %s && og.%s.pos == og.%s && og.%s >= 0 && og.%s <= ((gv_streamoff)1 << 60))
+/* the read starts at the documented position whatever the cached location was; exactly the entry's bytes are read; the cache tracks the stream again */
+__CPROVER_ensures((uint64_t)og.%s.last_read_at == %s && og.%s.pos == og.%s && (uint64_t)og.%s == %s + %s)
+__CPROVER_assigns(og.%s, og.%s, og.numSeeksEdgeDst, og.numSeeksIndex, og.numSeeksEdgeData, og.numBytesReadEdgeDst, og.numBytesReadIndex, og.numBytesReadEdgeData)''' % (extra, strm, loc, loc, loc, strm, posexpr, strm, loc, loc, posexpr, width, strm, loc),
+        prelude=[OGS, 'typedef uint32_t T;   /* edgeData<T>: T = uint32_t */\n'], lower=OG_LOWER, backend='smt', no_flags=['--conversion-check'], timeout=600,
+        inst='edge data type uint32_t (edgeData); edge-data widths 4 or 8' if 'edgeData' in nm else '',
+        says='offline (seek-and-read) reader, whole body: the entry is read at its documented file position for every cached location (seek only when needed), exactly its bytes are consumed, and the cached location equals the stream position afterwards',
+        trusted=['ifstream as (position, gcount): read() of n bytes succeeds completely; try/catch around read dropped']))
+
 # OfflineGraphWriter: always writes 64-bit destinations (version 2 layout)
 OWP = SPEC + 'struct OfflineGraphWriter { uint64_t numNodes, numEdges; bool smallData; } ow;\ntypedef int64_t gv_streamoff;\n'
 for nm, anchor, post in [
